@@ -5,7 +5,7 @@ seed=$1; ids="$2"; tier=${3:-quick}
 p=/verif/seeded/$seed/patch.diff
 cd /repo || exit 2
 if ! git diff --quiet; then echo "repo dirty"; exit 2; fi
-git apply $p 2>/dev/null || git apply -3 $p 2>/dev/null || { echo "$seed: patch does not apply"; git checkout -- . ; exit 2; }
+git apply $p 2>/dev/null || git apply -3 $p 2>/dev/null || { echo "$seed: patch does not apply"; git checkout HEAD -- . ; git reset -q; exit 2; }
 git reset -q 2>/dev/null
 cd /verif
 for id in $ids; do
